@@ -291,6 +291,68 @@ pub fn run() {
                     let v: Vec<String> = tr.iter().filter(|(a, _)| *a == "key_keeper").map(|(_, k)| k.to_string()).collect();
                     if v.is_empty() { "-".into() } else { v.join(",") }
                 }
+                ["sinks", logdir, eventsdir, statusdir, status_ms] => {
+                    // C12: the real file loggers (as service.rs setup_loggers builds them), the real event logger and the real
+                    // status task, all writing under scratch directories
+                    use proxy_agent_shared::logger::rolling_logger::RollingLogger;
+                    let log_folder = std::path::PathBuf::from(unhex_str(logdir));
+                    let mut loggers = std::collections::HashMap::new();
+                    loggers.insert(
+                        crate::common::logger::AGENT_LOGGER_KEY.to_string(),
+                        RollingLogger::create_new(log_folder.clone(), "ProxyAgent.log".to_string(), crate::common::constants::MAX_LOG_FILE_SIZE, crate::common::constants::MAX_LOG_FILE_COUNT as u16),
+                    );
+                    loggers.insert(
+                        crate::proxy::proxy_connection::ConnectionLogger::CONNECTION_LOGGER_KEY.to_string(),
+                        RollingLogger::create_new(log_folder.clone(), "ProxyAgent.Connection.log".to_string(), crate::common::constants::MAX_LOG_FILE_SIZE, crate::common::constants::MAX_LOG_FILE_COUNT as u16),
+                    );
+                    proxy_agent_shared::logger::logger_manager::set_loggers(loggers, crate::common::logger::AGENT_LOGGER_KEY.to_string());
+                    let events_dir = std::path::PathBuf::from(unhex_str(eventsdir));
+                    let st2 = st.clone();
+                    tokio::spawn(async move {
+                        proxy_agent_shared::telemetry::event_logger::start(events_dir, std::time::Duration::from_millis(50), 1000, move |status: String| {
+                            let st3 = st2.clone();
+                            async move {
+                                let _ = st3.set_module_status_message(status, crate::shared_state::agent_status_wrapper::AgentStatusModule::TelemetryLogger).await;
+                            }
+                        })
+                        .await;
+                    });
+                    let task = crate::proxy_agent_status::ProxyAgentStatusTask::new(
+                        std::time::Duration::from_millis(status_ms.parse().unwrap()),
+                        std::path::PathBuf::from(unhex_str(statusdir)),
+                        shared_state.get_cancellation_token(),
+                        kk.clone(),
+                        st.clone(),
+                    );
+                    tokio::spawn(async move { task.start().await });
+                    "ok".into()
+                }
+                ["keeper", ip, port, keydir, logdir, interval_ms] => {
+                    // C12: the real key keeper loop in this process, against the mock host
+                    let base: hyper::Uri = format!("http://{}:{}/", ip, port).parse().unwrap();
+                    let keeper = crate::key_keeper::KeyKeeper::new(
+                        base,
+                        std::path::PathBuf::from(unhex_str(keydir)),
+                        std::path::PathBuf::from(unhex_str(logdir)),
+                        std::time::Duration::from_millis(interval_ms.parse().unwrap()),
+                        &shared_state,
+                    );
+                    tokio::spawn(async move { keeper.poll_secure_channel_status().await });
+                    "ok".into()
+                }
+                ["notify"] => {
+                    let _ = kk.notify().await;
+                    "ok".into()
+                }
+                ["kstate"] => {
+                    // guid and state only: the key value is never printed on this channel
+                    format!(
+                        "guid={} chan={} haskey={}",
+                        hex(kk.get_current_key_guid().await.unwrap_or(None).unwrap_or_default().as_bytes()),
+                        hex(kk.get_current_secure_channel_state().await.unwrap_or_default().as_bytes()),
+                        if kk.get_current_key_value().await.unwrap_or(None).is_some() { 1 } else { 0 }
+                    )
+                }
                 ["now"] => proxy_agent_shared::misc_helpers::get_date_time_unix_nano().to_string(),
                 ["quit"] => {
                     out.line("bye");
